@@ -395,7 +395,8 @@ Definition perform_switchover (cfg : config) (env : sw_env) (sw : switch_rec) (m
     | CauseAuto, Some f => if N.eqb f old then filter_out active_with_old [old] else active_with_old
     | _, _ => active_with_old
     end in
-  e0 <- opt_disable_all_k (mem_host old (map fst (se_all_hosts env))) old active ;;
+  (* stopActiveNodeOptimization: cluster.Get of the old master and of every candidate; a nil handle is dereferenced *)
+  e0 <- opt_disable_all_k (mem_host old (map fst (se_all_hosts env)) && forallb (fun h => mem_host h (map fst (se_all_hosts env))) active) old active ;;
   match e0 with Some _ => Ret (SwErr 1245, mem) | None =>
   (if negb (is_failover sw) then start_timing_now 0 else Ret tt) ;;;
   Par 1260 (map (fun h => (h, freeze_host env h)) active) (fun errs =>
